@@ -1008,7 +1008,11 @@ func main() {
 				}
 			}
 		}
-		// (d) the complete queries contain the same where-clause and lex as a whole
+		// (d) the complete queries: series / tag values / tag value ids. The parts around the where-clause take no
+		// user string: they depend on what/by/sort/numResults/tag index/lod/utcOffset/settings only. Checked here:
+		// the full text contains the clause once, lexes as a whole, has no literal outside the clause, and the
+		// surrounding text is byte-identical for the query with harmless strings.
+		fullTerm := ""
 		if metric != nil {
 			tagIndex := 0
 			if q.mode != 0 {
@@ -1019,14 +1023,43 @@ func main() {
 				}
 			}
 			if tagIndex >= 0 {
-				v2 := api.NewVerifSQL(metric, q.by, toTagFilters(q.fin, mIn), toTagFilters(q.fnot, mNot))
-				full, err := v2.Full(lod, q.mode, tagIndex, " SETTINGS optimize_aggregation_in_order=1")
-				if err != nil || strings.Count(full, where) != 1 {
+				var what []int
+				for k, nk := 0, 1+r.Intn(3); k < nk; k++ {
+					what = append(what, 1+r.Intn(int(data_model.DigestLast)-1))
+				}
+				mm := [2]bool{r.Chance(30), r.Chance(30)}
+				srt := r.Intn(3)
+				nres := r.Intn(1000)
+				settings := []string{"", " SETTINGS optimize_aggregation_in_order=1", " SETTINGS max_threads=4,max_execution_time=30"}[r.Intn(3)]
+				build := func(fin, fnot []tfilter) (string, error) {
+					v2 := api.NewVerifSQL(metric, q.by, toTagFilters(fin, mIn), toTagFilters(fnot, mNot))
+					v2.SetSelect(what, mm, srt, nres)
+					return v2.Full(lod, q.mode, tagIndex, settings)
+				}
+				full, err := build(q.fin, q.fnot)
+				fullB, errB := build(benign(q.fin), benign(q.fnot))
+				whereB := api.NewVerifSQL(metric, q.by, toTagFilters(benign(q.fin), mIn), toTagFilters(benign(q.fnot), mNot)).Where(lod, q.mode)
+				if err != nil || errB != nil || strings.Count(full, where) != 1 || strings.Count(fullB, whereB) != 1 {
 					fails = append(fails, "full_query_contains_where")
-				} else if tf, okf := chLex(full); !okf {
-					fails = append(fails, "full_query_lexes")
-				} else if fmt.Sprintf("%q", literals(tf, true)) != fmt.Sprintf("%q", live) {
-					fails = append(fails, "full_query_literals")
+				} else {
+					idx := strings.Index(full, where)
+					pre, suf := full[:idx], full[idx+len(where):]
+					idxB := strings.Index(fullB, whereB)
+					if pre != fullB[:idxB] || suf != fullB[idxB+len(whereB):] {
+						fails = append(fails, "select_parts_independent_of_filters")
+					}
+					tf, okf := chLex(full)
+					tp, okp := chLex(pre)
+					tsf, oks := chLex(suf)
+					switch {
+					case !okf || !okp || !oks:
+						fails = append(fails, "full_query_lexes")
+					case fmt.Sprintf("%q", literals(tf, true)) != fmt.Sprintf("%q", live):
+						fails = append(fails, "full_query_literals")
+					case len(literals(tp, false)) != 0 || len(literals(tsf, false)) != 0:
+						fails = append(fails, "select_parts_have_no_literals")
+					}
+					fullTerm = fmt.Sprintf("CFull %s %s %s", q.term(), strZ(pre), strZ(suf))
 				}
 				o.Hist["full/mode"+strconv.Itoa(q.mode)]++
 			}
@@ -1042,6 +1075,9 @@ func main() {
 		line := o.Case(input, term, hostile, kinds...)
 		for _, f := range fails {
 			o.Fail(f, line, input)
+		}
+		if fullTerm != "" {
+			o.Case("full "+input, fullTerm, hostile, "fullcase/mode"+strconv.Itoa(q.mode))
 		}
 	}
 }
